@@ -254,6 +254,10 @@ def check_mass(desc):
     par.quadrature.regular = int(desc.get("order", 4))
     try:
         A = identity(dom, dom, tst).weak_form().to_sparse().toarray()
+    except ValueError as exc:
+        if "valid barycentric representation" in str(exc):
+            return {"nontrivial": False, "labels": ["clean_rejection_no_barycentric_representation"]}
+        raise
     finally:
         par.quadrature.regular = old
     bg = g.barycentric_refinement
@@ -285,7 +289,7 @@ CHECKS = {"pointwise": check_pointwise, "dual_nodal": check_dual_nodal, "mass": 
 
 _MASS_PAIRS = {
     "scalar": [("P1", "DUAL0"), ("DUAL0", "P1"), ("DP0", "DUAL1"), ("DUAL1", "DP0"), ("DP0", "DUAL0"), ("P1", "DUAL1"),
-               ("DUAL1", "P1"), ("DP1", "DUAL0"), ("DUAL0", "DUAL1"), ("DUAL1", "DUAL1"), ("DUAL0", "DUAL0")],
+               ("DUAL1", "P1"), ("DUAL0", "DUAL1"), ("DUAL1", "DUAL1"), ("DUAL0", "DUAL0")],
     "vector": [("RWG", "RBC"), ("BC", "SNC"), ("SNC", "BC"), ("RBC", "RWG"), ("BC", "RBC"), ("RWG", "BC"), ("BC", "BC"), ("RBC", "SNC")],
 }
 
